@@ -126,3 +126,23 @@ class Unit:
         self.mods = mods  # module order
         self.uses = uses or {}  # mod -> extra `use` lines
         self.doc = doc
+
+
+def to_stub(f, verified_in):
+    """the same contract, assumed instead of verified (for use in a unit above the one that proves it)"""
+    s = Stub(f.file, f.name, verified_in=verified_in, impl=f.impl, mod=f.mod, ret=f.ret, sig_sub=f.sig_sub, rename=f.rename, dyn=f.dyn, attrs=f.attrs)
+    s.requires = list(f.requires)
+    s.ensures = list(f.ensures)
+    s.impl_sub = getattr(f, "impl_sub", [])
+    return s
+
+
+def stubs_of(items, verified_in, verify=()):
+    """copy an item list turning every verified Fn into a Stub, except the names in `verify`"""
+    out = []
+    for x in items:
+        if x.kind == "fn" and x.name not in verify:
+            out.append(to_stub(x, verified_in))
+        else:
+            out.append(x)
+    return out
